@@ -42,7 +42,7 @@ pub struct RawGen {
     shadow_groups: usize,
 }
 
-pub const RAW_FAMILIES: [&str; 21] = [
+pub const RAW_FAMILIES: [&str; 22] = [
     "defmacro",
     "callmacro",
     "cond_open",
@@ -63,6 +63,7 @@ pub const RAW_FAMILIES: [&str; 21] = [
     "let_builtin",
     "shadow_builtin",
     "frac_dimen",
+    "burst",
     "dump",
 ];
 
@@ -461,7 +462,7 @@ impl RawGen {
             "shadow_builtin" => {
                 // A built-in name redefined locally; the group is closed on a later line, possibly
                 // after a checkpoint, which must bring the built-in back.
-                if self.shadow_groups > 0 && rng.chance(1, 2) {
+                if self.shadow_groups > 0 && self.shadow_groups < 300 && rng.chance(1, 2) {
                     self.shadow_groups -= 1;
                     self.reach.push("shadowed_builtin_restored_by_group_end");
                     Some("\\month;}\\the\\month;".to_string())
@@ -496,6 +497,61 @@ impl RawGen {
                         v.trim_end_matches("pt"),
                         w.trim_end_matches("pt")
                     ),
+                })
+            }
+            "burst" => {
+                // Sizes that cross the length-encoding boundaries of the binary formats (256,
+                // 65536) and the small-size assumptions of containers: many names, long bodies,
+                // many open groups, many open conditionals.
+                let id = self.id();
+                Some(match rng.below(8) {
+                    0 => {
+                        self.reach.push("burst_300_fresh_names");
+                        let mut t = String::new();
+                        for k in 0..300u32 {
+                            t.push_str(&format!("\\def\\zb{}{{{}}}", name_from(id * 1000 + k), k % 10));
+                        }
+                        t.push_str(&format!("\\zb{} ;", name_from(id * 1000 + 299)));
+                        t
+                    }
+                    1 => {
+                        self.reach.push("burst_macro_body_300_tokens");
+                        format!("\\def\\xbig{{{}}}", "Ab1 ".repeat(75))
+                    }
+                    2 => {
+                        self.reach.push("burst_toks_300_tokens");
+                        format!("\\toks13={{{}}}", "\\relax c{d}".repeat(60))
+                    }
+                    3 => "\\xbig;\\the\\toks13;".to_string(),
+                    4 => {
+                        if self.shadow_groups == 0 {
+                            self.shadow_groups += 300;
+                            self.reach.push("burst_300_open_groups");
+                            format!("{}\\count19={id} ", "{".repeat(300))
+                        } else {
+                            return None;
+                        }
+                    }
+                    5 => {
+                        if self.shadow_groups >= 300 {
+                            self.shadow_groups -= 300;
+                            format!("\\the\\count19;{}\\the\\count19;", "}".repeat(300))
+                        } else {
+                            return None;
+                        }
+                    }
+                    6 => {
+                        if rng.chance(1, 6) {
+                            self.reach.push("burst_macro_body_70000_tokens");
+                            format!("\\def\\xhuge{{{}}}", "xyz ".repeat(17500))
+                        } else {
+                            return None;
+                        }
+                    }
+                    _ => {
+                        self.reach.push("burst_40_open_conditionals");
+                        format!("{}C{id};{}", "\\iftrue ".repeat(40), "\\fi ".repeat(40))
+                    }
                 })
             }
             "dump" => {
